@@ -1,4 +1,6 @@
-import AsherahVerif.Driver.Loop
-/- model driver executable of engine `secmem` (stub until the engine is built) -/
+import AsherahVerif.Driver.SecMem
+open AsherahVerif.Driver
+/- model driver executable of engine `secmem` (C11, C12): reads the harness' trace on stdin. -/
 def main (_args : List String) : IO UInt32 := do
-  IO.eprintln "engine secmem: not built yet"; return 2
+  runEngine SecMemEngine.engine
+  return 0
